@@ -551,6 +551,9 @@ func main() {
 	if !*noAmode && *hx.Replay == "" {
 		amodeUnit(work, rnd)
 	}
+	if *hx.Replay == "" {
+		noMemoryGrid()
+	}
 	rep.Note("programs=%d jobs=%d; guard = 8 GiB PROT_NONE on both sides of the memory, memory moved by mremap on every growth", len(progs), len(jobs))
 	rep.Note("compiler at 65536 pages: in-bounds accesses that trap are C14/F13 (length loaded as 32 bits), counted under scope:F13, not reported here")
 	rep.Write(orc)
